@@ -20,7 +20,7 @@ let run mode file =
   let prev_version = ref empty_root in
   let acct = (mode = "c07" || mode = "c08") in
   let meta_written = ref false and fail_after_meta = ref false and fail_kind = ref "" in
-  let d5 = ref false and unmapped = ref false in
+  let d5 = ref false and d4 = ref false and unmapped = ref false in
   let last_dump = ref "t:" and pending_dump = ref "t:" in
   let last_reach = ref (-1) in
   let api_free : int list option ref = ref None in
@@ -37,7 +37,7 @@ let run mode file =
     if not !dead then begin
       incr mism; dead := true;
       Printf.printf "MISMATCH case=%s op=%d (%s) what=%s%s impl=%s model=%s\n" !case_id !opidx (cut (String.concat " " !cur)) what
-        (if !d5 then " sig=d5 " else "") (cut i) (cut m) end in
+        (if !d5 then " sig=d5 " else if !d4 then " sig=d4 " else "") (cut i) (cut m) end in
   let propfail rule detail =
     incr pfail;
     Printf.printf "PROPFAIL case=%s op=%d (%s) rule=%s%s %s\n" !case_id !opidx (cut (String.concat " " !cur)) rule
@@ -207,8 +207,8 @@ let run mode file =
             if not (v0 && v1) then propfail "backup_metas_valid" "";
             let t0 = (Layout.rd_meta rd psn BinNums.N0).Layout.m_txid and t1 = (Layout.rd_meta rd psn (n_of_int 1)).Layout.m_txid in
             if int_of_n t1 <> int_of_n t0 - 1 then mismatch "backup_meta1_txid" (string_of_n t1) (string_of_int (int_of_n t0 - 1));
-            (match Layout.dec_db rd psn (nat_of_int 200) with
-             | None -> propfail "backup_decodes" ""
+            (match (match with_timeout 20 (fun () -> Layout.dec_db rd psn (nat_of_int 200)) with Some x -> x | None -> None) with
+             | None -> propfail "backup_decodes" "the copy does not decode as a database (or the decoder gave up after 20 s on its counts)"
              | Some v ->
                if int_of_n v.Layout.v_meta.Layout.m_txid <> int_of_n t0 then propfail "backup_meta0_wins" "";
                if len <> int_of_n v.Layout.v_meta.Layout.m_mark * int_of_string (get kv "ps") then propfail "backup_size" "length is not mark * pageSize";
@@ -297,8 +297,14 @@ let run mode file =
                if e <> Spec.ENone then flag ("err-" ^ err_name e); expect res_s (err_name e) api
              | "delb" -> let (e, _) = apply (Spec.ODeleteBucket (p, expand_val (arg 0))) in
                if e <> Spec.ENone then flag ("err-" ^ err_name e) else flag "delb"; expect (canon_empty (arg 0) res_s) (err_name e) api
-             | "move" -> let (e, _) = apply (Spec.OMove (p, expand_val (arg 0), parse_path (arg 1))) in
-               if e <> Spec.ENone then flag ("err-" ^ err_name e) else flag "move"; expect (canon_empty (arg 0) res_s) (err_name e) api
+             | "move" ->
+               let dstp = parse_path (arg 1) and nm = expand_val (arg 0) in
+               let (e, _) = apply (Spec.OMove (p, nm, dstp)) in
+               if e <> Spec.ENone then flag ("err-" ^ err_name e) else flag "move";
+               (* known finding D4: the destination lies inside the bucket being moved; the reference refuses, the code returns nil *)
+               let rec is_prefix a b = match a, b with [], _ -> true | x :: a', y :: b' -> x = y && is_prefix a' b' | _ -> false in
+               if e = Spec.ESameBuckets && is_prefix (p @ [nm]) dstp && res_s = "ok" then d4 := true;
+               expect (canon_empty (arg 0) res_s) (err_name e) api; d4 := false
              | "put" -> let (e, _) = apply (Spec.OPut (p, expand_val (arg 0), expand_val (arg 1))) in
                if e <> Spec.ENone then flag ("err-" ^ err_name e) else flag "put"; expect res_s (err_name e) api
              | "get" -> (match apply (Spec.OGet (p, expand_val (arg 0))) with
